@@ -68,11 +68,16 @@ def main():
 
 
 NOTES = {
-    "C14_a": "needs a third side's message stored in the mailbox; the real server answers a third side with `crowded`, so this "
-             "cannot happen against a conformant server — outside C14's environment as fixed in DESIGN §6 (the demo injects "
-             "the message into the server object directly). Kept for the record; not expected to be caught.",
+    "C14_a": "needs a third side's message relayed by the mailbox; first missed (the real server object never relays one), "
+             "caught since the guided schedules include a third participant (profile `third`: a stranger's PAKE / undecryptable "
+             "bytes under a third side id, relayed to a subscribed client at any time).",
     "C10_a": "C10's harness uses stand-in L2 connections; the queue of DilatedConnectionProtocol is C12's model (l2Select) — caught there.",
     "C10_b": "shared class-level pending list in SubChannel: C13's territory — caught there.",
+    "C15_d": "no longer applies: fix bec439a edits the same lines (the seed's author found the same defect and repaired it "
+             "incompletely); re-expressed on the fixed tree as C15_d2, results below are from the pre-fix tree.",
+    "C15_d2": "C15_d re-expressed on the tree after fix bec439a (written by the verifier, demo unchanged).",
+    "C01_c": "manifests only when the peer's PAKE is replayed after a reconnect: caught by C14 (internal NoTransition), C09 and C02; "
+             "C01's own world has no connection loss.",
     "C04_a": "transit replay acceptance: caught by C06 (the channel property C04 builds on).",
 }
 
